@@ -42,16 +42,19 @@ pub fn gen_case(u: &mut Src, deep_max: usize, tile_max: usize) -> Case {
         }
         1 => {
             let nn = u.range(1, 30);
-            let o = opts(u, nn);
+            let mut o = opts(u, nn);
+            o.max_str_len = o.max_str_len.min(12);
             let sub = json::gen_value(u, &o);
             let n = match u.below(8) {
                 0 | 1 | 2 => u.range(10, 40),
                 3 | 4 | 5 => u.range(40, 300),
                 _ => u.range(300, tile_max),
             };
-            // keep the text bounded (several library calls are O(text) each: structural_pos
-            // scans the IB words from 0): shrink the repeat count for big sub-documents
-            let n = n.min(12 * tile_max / (sub.node_count() * 8 + 8)).max(2);
+            // keep the document bounded (several library calls are O(text) each: structural_pos
+            // scans the IB words from 0): total node budget 6000, sometimes 45000 so that BP
+            // crosses its 32768-bit blocks
+            let budget = if u.ratio(1, 4) { 15 * tile_max } else { 2 * tile_max };
+            let n = n.min(budget / sub.node_count().max(1)).max(2);
             let tiled = if u.bool() {
                 J::Arr((0..n).map(|_| sub.clone()).collect())
             } else {
@@ -290,7 +293,7 @@ pub fn run(cx: &mut Ctx) {
     cx.check(
         "navigate-vs-span-table",
         RULE,
-        Budget { quick: 30_000, thorough: 1_200_000, max_len: 5000 },
+        Budget { quick: 20_000, thorough: 1_000_000, max_len: 5000 },
         |u, st| {
             let c = gen_case(u, deep_max, tile_max);
             classify(&c, st);
